@@ -103,15 +103,23 @@ def run(ctx):
     vlib.judge_trace(ctx, "Trace_Merger.tla", "Trace_Merger.cfg", tr, "merge-iterator random scans with re-seeks", info["scenarios"], reset, timeout=2400)
     # ---- binding demonstration
     if not ctx.violations:
-        lines = open(os.path.join(ctx.wd, "m_m3.ndjson")).read().splitlines()[:60]
+        lines = open(os.path.join(ctx.wd, "m_m3.ndjson")).read().splitlines()
+        hit = None
         for i, ln_ in enumerate(lines):
+            if '"valid"' not in ln_:
+                continue
             e = json.loads(ln_)
             if e.get("valid") and e.get("item"):
                 e["item"] += 1
                 lines[i] = json.dumps(e)
+                hit = i
                 break
+        if hit is None:
+            raise Infra("binding self-test: no positioned merge-iterator event in the edge-cover trace (vacuous replay)")
+        first_, sc = vlib.cut_scenario(os.path.join(ctx.wd, "m_m3.ndjson"), hit + 1, reset)
+        sc[hit + 1 - first_] = lines[hit]
         cp = os.path.join(ctx.wd, "corrupt.ndjson")
-        open(cp, "w").write("\n".join(lines) + "\n")
+        open(cp, "w").write("\n".join(sc) + "\n")
         saved = (ctx.events, ctx.traces, ctx.states, ctx.transitions)
         bad = ctx.validate("Trace_Merger.tla", "Trace_Merger.cfg", cp, "binding self-test (corrupted field)", 0)
         ctx.events, ctx.traces, ctx.states, ctx.transitions = saved
